@@ -487,7 +487,7 @@ def names_strategy(tier):
 # ------------------------------------------------------------------------ (C) entry points
 
 OPTS = ["exclusions", "regex_exclusions", "external_exclusions", "regex_external_exclusions", "include_external"]
-PATHS = ["equal", "inside", "outside", "sibling-prefix"]
+PATHS = ["equal", "inside", "outside", "sibling-prefix", "outside-via-dotdot", "parent-via-dotdot", "inside-via-dotdot"]
 
 
 def check_entry_case(spec: dict) -> dict:
@@ -500,7 +500,10 @@ def check_entry_case(spec: dict) -> dict:
         (base / "other").mkdir()
         (base / "other" / "z.py").write_text("")
         mp = {"equal": pr.path(), "inside": pr.path("a"), "outside": str(base / "other"),
-              "sibling-prefix": str(base / "proj2" / "a")}[spec["module_path"]]
+              "sibling-prefix": str(base / "proj2" / "a"),
+              # the same places spelt with '..' components
+              "outside-via-dotdot": pr.path() + "/../other", "parent-via-dotdot": pr.path() + "/a/../..",
+              "inside-via-dotdot": pr.path() + "/b/../a"}[spec["module_path"]]
         kw = {}
         on = set(spec["opts"])
         if "exclusions" in on:
@@ -522,7 +525,7 @@ def check_entry_case(spec: dict) -> dict:
         reasons.append("glob-and-regex-external-exclusions")
     if "include_external" not in on and ({"external_exclusions", "regex_external_exclusions"} & on):
         reasons.append("external-patterns-while-externals-excluded")
-    if spec["module_path"] in ("outside", "sibling-prefix"):
+    if spec["module_path"] in ("outside", "sibling-prefix", "outside-via-dotdot", "parent-via-dotdot"):
         reasons.append("module-path-outside-root")
     viols = []
     if reasons and res[0] != "error":
